@@ -1,6 +1,7 @@
 SPECIFICATION Spec
 CONSTANTS KnownDevs = {}
 INVARIANTS
+  InEnvelope
   C01_AtMostOneResponsePerDatagram
   C02_ExactlyOneResponse
   C02_ResponseTypeMatches
@@ -9,7 +10,6 @@ INVARIANTS
   C02_EstablishmentResponseShape
   C02_FseidAddressesSession
   C03_TablesAreImage
-  InEnvelope
 POSTCONDITION TraceAccepted
 ALIAS Alias
 CHECK_DEADLOCK FALSE
